@@ -221,7 +221,8 @@ def odd_kvs(p, level=1):
     out = [(kv(0.0, 1.0, fr1), True), (kv(0.0, 1.0, fr2), True),
            (kv(-5.0, -1.0, fr1), False), (kv(100.0, 200.0, fr2), False), (kv(0.0, 1.0e-3, [0.5, 0.5] if p >= 2 else [0.5]), False)]
     if level >= 2:
-        out += [(kv(-5.0, -1.0, fr2), True), (kv(100.0, 200.0, fr1), True), (kv(0.0, 3.0, [0.3, 0.57]), False)]
+        # (a vector with normalize_kv=True is always given on [0,1] here: the harnesses take parameters from the descriptor)
+        out += [(kv(0.0, 1.0, [0.2, 0.55, 0.9][:max(1, min(3, p + 1))]), True), (kv(-5.0, -1.0, fr2), False), (kv(0.0, 3.0, [0.3, 0.57]), False)]
     return out
 
 
